@@ -15,6 +15,7 @@ type State struct {
 	vars     map[types.Object]Value
 	mem      map[string]Term
 	pc       []Term
+	facts    []Term
 	regions  []region
 	embSeen  map[string]bool
 	memEpoch int
@@ -24,11 +25,24 @@ func newState() *State {
 	return &State{vars: map[types.Object]Value{}, mem: map[string]Term{}, embSeen: map[string]bool{}}
 }
 
+// assume adds a hypothesis. Quantifier-free ones are path decisions (they take
+// part in the conditions of merged values); quantified ones are facts: they hold
+// on this path but never become part of a value's ite condition.
 func (s *State) assume(t Term) {
 	if t.IsC && t.C != 0 {
 		return
 	}
+	if strings.Contains(t.S, "(forall ") || strings.Contains(t.S, "(exists ") {
+		s.facts = append(s.facts, t)
+		return
+	}
 	s.pc = append(s.pc, t)
+}
+
+func (s *State) hyps() []Term {
+	out := make([]Term, 0, len(s.pc)+len(s.facts))
+	out = append(out, s.pc...)
+	return append(out, s.facts...)
 }
 
 func (s *State) fork() *State {
@@ -43,6 +57,7 @@ func (s *State) fork() *State {
 		n.embSeen[k] = v
 	}
 	n.pc = append([]Term(nil), s.pc...)
+	n.facts = append([]Term(nil), s.facts...)
 	n.regions = append([]region(nil), s.regions...)
 	return n
 }
@@ -65,6 +80,8 @@ type Obligation struct {
 	ExpectSat bool // cover / canary obligations
 	Pos       token.Pos
 	Text      string // source/contract text for reports
+	Run       *runInfo
+	CExpr     *CExpr // the contract clause this obligation comes from, if any
 	// results
 	Result string // proved refuted unknown
 	Solver string
@@ -147,6 +164,27 @@ type Exec struct {
 	depth     int
 	epochs    int
 	parts     map[string]goalParts
+	allocs    int
+	provLost  bool
+	// path splitting (see Verify)
+	decisions   []bool
+	decisionPos int
+	curRun      *runInfo
+	curCExpr    *CExpr
+}
+
+// decide returns the next decision of the current run; ok is false when the
+// number of split points on this path exceeds the budget (the caller merges).
+func (x *Exec) decide() (value bool, ok bool) {
+	if x.spec > 0 || x.decisionPos >= 5 {
+		return false, false
+	}
+	if x.decisionPos >= len(x.decisions) {
+		x.decisions = append(x.decisions, false)
+	}
+	v := x.decisions[x.decisionPos]
+	x.decisionPos++
+	return v, true
 }
 
 func NewExec(w *World, c *Contract) *Exec {
@@ -182,8 +220,8 @@ func (x *Exec) oblige(s *State, kind, name string, goal Term, pos token.Pos, tex
 		if n := x.oblNames[full]; n > 1 {
 			full = fmt.Sprintf("%s~%d", full, n)
 		}
-		hyps := append(append([]Term(nil), s.pc...), sg.hyps...)
-		o := &Obligation{Name: full, Kind: kind, Func: x.topName, Hyps: hyps, Goal: sg.goal, Pos: pos, Text: text}
+		hyps := append(s.hyps(), sg.hyps...)
+		o := &Obligation{Name: full, Kind: kind, Func: x.topName, Hyps: hyps, Goal: sg.goal, Pos: pos, Text: text, Run: x.curRun, CExpr: x.curCExpr}
 		x.obls = append(x.obls, o)
 	}
 }
@@ -194,7 +232,7 @@ func (x *Exec) cover(s *State, name string, extra Term, text string) {
 	if n := x.oblNames[full]; n > 1 {
 		full = fmt.Sprintf("%s~%d", full, n)
 	}
-	o := &Obligation{Name: full, Kind: "cover", Func: x.topName, Hyps: append([]Term(nil), s.pc...), Goal: extra, ExpectSat: true, Text: text}
+	o := &Obligation{Name: full, Kind: "cover", Func: x.topName, Hyps: s.hyps(), Goal: extra, ExpectSat: true, Text: text}
 	x.obls = append(x.obls, o)
 }
 
@@ -238,6 +276,18 @@ func (x *Exec) merge(a, b *State) *State {
 	n := &State{vars: map[types.Object]Value{}, mem: map[string]Term{}, embSeen: map[string]bool{}}
 	n.pc = append([]Term(nil), a.pc[:k]...)
 	n.pc = append(n.pc, Or(ca, cb))
+	// facts: the common prefix is kept, the rest is guarded by its branch condition
+	fk := 0
+	for fk < len(a.facts) && fk < len(b.facts) && a.facts[fk].S == b.facts[fk].S {
+		fk++
+	}
+	n.facts = append([]Term(nil), a.facts[:fk]...)
+	for _, f := range a.facts[fk:] {
+		n.facts = append(n.facts, Implies(ca, f))
+	}
+	for _, f := range b.facts[fk:] {
+		n.facts = append(n.facts, Implies(cb, f))
+	}
 	for o, va := range a.vars {
 		vb, ok := b.vars[o]
 		if !ok {
@@ -281,10 +331,10 @@ func (x *Exec) merge(a, b *State) *State {
 	// regions: keep those known on both sides (by base term)
 	seen := map[string]bool{}
 	for _, r := range a.regions {
-		seen[r.base.S] = true
+		seen[r.rgn.S] = true
 	}
 	for _, r := range b.regions {
-		if seen[r.base.S] {
+		if seen[r.rgn.S] {
 			n.regions = append(n.regions, r)
 		}
 	}
@@ -502,16 +552,16 @@ func (x *Exec) findLoop(fr *Frame, label *ast.Ident, brk bool) *loopCtx {
 func (x *Exec) declare(s *State, fr *Frame, obj types.Object, v Value) {
 	if x.escapes(fr, obj) {
 		// address-taken local: lives in the heap
-		addr := x.ctx.Fresh("loc$"+obj.Name(), SBV64)
-		x.addRegion(s, region{mem: memName(obj.Type()), base: addr, size: I64(1), tag: "local"}, true)
-		x.store(s, memName(obj.Type()), obj.Type(), addr, v)
-		s.vars[obj] = &heapVar{addr: addr}
+		rgn := x.newRegion(s, memName(obj.Type()), "local")
+		x.store(s, memName(obj.Type()), obj.Type(), rgn, I64(0), v)
+		s.vars[obj] = &heapVar{rgn: rgn}
 		return
 	}
 	s.vars[obj] = v
 }
 
-type heapVar struct{ addr Term }
+// heapVar is the binding of an address-taken local: it lives at offset 0 of its own region.
+type heapVar struct{ rgn Term }
 
 // escapes reports whether a local variable has its address taken in the
 // enclosing function body.
@@ -573,7 +623,10 @@ func (x *Exec) frameRoot(fr *Frame) ast.Node {
 			if f.contract.Decl != nil {
 				return f.contract.Decl
 			}
-			return f.contract.Outer
+			if f.contract.Outer != nil {
+				return f.contract.Outer
+			}
+			return f.contract.Lit
 		}
 		if f.fn != nil {
 			if d, ok := x.w.Decls[f.fn.Origin()]; ok {
@@ -796,7 +849,7 @@ func (x *Exec) readVar(s *State, obj types.Object) Value {
 		return x.global(s, obj)
 	}
 	if hv, ok := v.(*heapVar); ok {
-		return x.load(s, memName(obj.Type()), obj.Type(), hv.addr)
+		return x.load(s, memName(obj.Type()), obj.Type(), hv.rgn, I64(0))
 	}
 	return v
 }
@@ -804,7 +857,7 @@ func (x *Exec) readVar(s *State, obj types.Object) Value {
 func (x *Exec) setVar(s *State, fr *Frame, obj types.Object, v Value) {
 	if cur, ok := s.vars[obj]; ok {
 		if hv, ok := cur.(*heapVar); ok {
-			x.store(s, memName(obj.Type()), obj.Type(), hv.addr, v)
+			x.store(s, memName(obj.Type()), obj.Type(), hv.rgn, I64(0), v)
 			return
 		}
 	}
@@ -1091,13 +1144,13 @@ func (x *Exec) rangeStmt(s *State, fr *Frame, n *ast.RangeStmt, label string) *S
 		}
 		length = sv.Len
 		elemAt = func(st *State, i Term) Value {
-			return x.load(st, memName(u.Elem()), u.Elem(), Add64(sv.Ptr, i))
+			return x.load(st, memName(u.Elem()), u.Elem(), sv.Rgn, Add64(sv.Off, i))
 		}
 	case *types.Array:
 		av := x.expr(s, fr, n.X).(*ArrayRef)
 		length = I64(av.N)
 		elemAt = func(st *State, i Term) Value {
-			return x.load(st, memName(u.Elem()), u.Elem(), Add64(av.Base, i))
+			return x.load(st, memName(u.Elem()), u.Elem(), av.Rgn, Add64(av.Off, i))
 		}
 	case *types.Basic:
 		if u.Info()&types.IsInteger == 0 {
@@ -1113,11 +1166,10 @@ func (x *Exec) rangeStmt(s *State, fr *Frame, n *ast.RangeStmt, label string) *S
 		if !ok {
 			unsup("range over pointer to %s", u.Elem())
 		}
-		pv := x.expr(s, fr, n.X).(*Scalar)
-		base := x.embBaseOfPtrToArray(s, pv, at)
+		pv := x.expr(s, fr, n.X).(*PtrV)
 		length = I64(at.Len())
 		elemAt = func(st *State, i Term) Value {
-			return x.load(st, memName(at.Elem()), at.Elem(), Add64(base, i))
+			return x.load(st, memName(at.Elem()), at.Elem(), pv.Rgn, Add64(pv.Off, i))
 		}
 	default:
 		unsup("range over %s", xt)
@@ -1181,10 +1233,6 @@ type rangeExtra struct {
 	length Term
 }
 
-func (x *Exec) embBaseOfPtrToArray(s *State, pv *Scalar, at *types.Array) Term {
-	// a *[N]T points at the first element in the element memory
-	return pv.T
-}
 
 func (x *Exec) loop(s *State, fr *Frame, node ast.Stmt, label string, condFn func(*State) Term,
 	bodyFn func(*State) *State, postFn func(*State) *State, wsNodes []ast.Node, rx *rangeExtra) *State {
@@ -1275,7 +1323,11 @@ func (x *Exec) loop(s *State, fr *Frame, node ast.Stmt, label string, condFn fun
 	// havoc
 	ws := &writeSet{vars: map[types.Object]bool{}, mems: map[string]bool{}}
 	for _, nd := range wsNodes {
-		x.scanWrites(fr.info, nd, ws, map[*types.Func]bool{}, 0)
+		if st, ok := nd.(ast.Stmt); ok {
+			x.scanCarried(fr.info, st, ws, false)
+		} else {
+			x.scanWrites(fr.info, nd, ws, map[*types.Func]bool{}, 0)
+		}
 	}
 	// ghost variables updated by on-call directives inside the loop
 	if fr.contract != nil || c != nil {
@@ -1320,7 +1372,7 @@ func (x *Exec) loop(s *State, fr *Frame, node ast.Stmt, label string, condFn fun
 	} else {
 		for m := range ws.mems {
 			if srt, ok := x.memSorts[m]; ok {
-				h.mem[m] = x.ctx.Fresh("mem$"+m, ArrSort(srt))
+				h.mem[m] = x.ctx.Fresh("mem$"+m, outerSort(srt))
 			} else {
 				// memory not touched so far: materialise lazily with a fresh name
 				delete(h.mem, m)
@@ -1405,6 +1457,110 @@ func (x *Exec) pendingHavoc(s *State, m string) {
 func (x *Exec) newEpoch() int {
 	x.epochs++
 	return x.epochs
+}
+
+// scanCarried computes what a loop body may write on paths that reach the back
+// edge: blocks that always leave the loop (return, panic, break out of it) are
+// skipped, because their effects are never seen by a later iteration.
+// nested is true inside an inner switch/select/loop, where an unlabelled break
+// does not leave the loop under analysis.
+func (x *Exec) scanCarried(info *types.Info, st ast.Stmt, ws *writeSet, nested bool) {
+	if st == nil {
+		return
+	}
+	full := func(n ast.Node) { x.scanWrites(info, n, ws, map[*types.Func]bool{}, 0) }
+	switch n := st.(type) {
+	case *ast.BlockStmt:
+		if x.leavesLoop(n.List, nested) {
+			return
+		}
+		for _, c := range n.List {
+			x.scanCarried(info, c, ws, nested)
+		}
+	case *ast.IfStmt:
+		if n.Init != nil {
+			full(n.Init)
+		}
+		full(n.Cond)
+		x.scanCarried(info, n.Body, ws, nested)
+		if n.Else != nil {
+			x.scanCarried(info, n.Else, ws, nested)
+		}
+	case *ast.SwitchStmt:
+		if n.Init != nil {
+			full(n.Init)
+		}
+		if n.Tag != nil {
+			full(n.Tag)
+		}
+		for _, c := range n.Body.List {
+			cc := c.(*ast.CaseClause)
+			for _, e := range cc.List {
+				full(e)
+			}
+			if x.leavesLoop(cc.Body, true) {
+				continue
+			}
+			for _, b := range cc.Body {
+				x.scanCarried(info, b, ws, true)
+			}
+		}
+	case *ast.LabeledStmt:
+		x.scanCarried(info, n.Stmt, ws, nested)
+	default:
+		full(st)
+	}
+}
+
+// leavesLoop reports whether a statement list always ends by leaving the loop.
+func (x *Exec) leavesLoop(list []ast.Stmt, nested bool) bool {
+	if len(list) == 0 {
+		return false
+	}
+	hasContinue := false
+	for _, st := range list {
+		ast.Inspect(st, func(nd ast.Node) bool {
+			switch b := nd.(type) {
+			case *ast.FuncLit:
+				return false
+			case *ast.BranchStmt:
+				if b.Tok == token.CONTINUE || b.Tok == token.GOTO {
+					hasContinue = true
+				}
+			}
+			return true
+		})
+	}
+	if hasContinue {
+		return false
+	}
+	switch n := list[len(list)-1].(type) {
+	case *ast.ReturnStmt:
+		return true
+	case *ast.BranchStmt:
+		return n.Tok == token.BREAK && n.Label == nil && !nested
+	case *ast.ExprStmt:
+		if call, ok := n.X.(*ast.CallExpr); ok {
+			if id, ok := call.Fun.(*ast.Ident); ok && id.Name == "panic" {
+				return true
+			}
+		}
+	case *ast.BlockStmt:
+		return x.leavesLoop(n.List, nested)
+	case *ast.IfStmt:
+		if n.Else == nil {
+			return false
+		}
+		var elseList []ast.Stmt
+		switch e := n.Else.(type) {
+		case *ast.BlockStmt:
+			elseList = e.List
+		default:
+			elseList = []ast.Stmt{e}
+		}
+		return x.leavesLoop(n.Body.List, nested) && x.leavesLoop(elseList, nested)
+	}
+	return false
 }
 
 // scanWrites computes a syntactic over-approximation of what a piece of code writes.
@@ -1619,6 +1775,11 @@ func (x *Exec) scanCallWrites(info *types.Info, call *ast.CallExpr, ws *writeSet
 			return
 		}
 	}
+	if sel, ok := call.Fun.(*ast.SelectorExpr); ok {
+		if _, isB := info.Uses[sel.Sel].(*types.Builtin); isB {
+			return // unsafe.Add, unsafe.Slice, ...: no writes
+		}
+	}
 	fn := x.staticCallee(info, call)
 	if fn == nil {
 		if lit, ok := call.Fun.(*ast.FuncLit); ok {
@@ -1671,8 +1832,8 @@ func (x *Exec) scanCallWrites(info *types.Info, call *ast.CallExpr, ws *writeSet
 	if c, ok := x.w.Contracts[fn]; ok && (len(c.Assigns) > 0 || c.Block.Has("pure")) {
 		for _, a := range c.Assigns {
 			x.markLvalue(c.Pkg.TypesInfo, a.Expr, ws)
-			// a slice-typed assigns entry means its elements
-			if st, ok := c.Pkg.TypesInfo.TypeOf(a.Expr).Underlying().(*types.Slice); ok {
+			// "x[*]" means the elements of the slice
+			if st, ok := c.Pkg.TypesInfo.TypeOf(a.Expr).Underlying().(*types.Slice); ok && strings.HasSuffix(a.Text, "[*]") {
 				x.markType(st.Elem(), memName(st.Elem()), ws)
 			}
 		}
